@@ -383,10 +383,10 @@ pub fn gen_spec(rng: &mut Rng) -> KySpec {
     let type_w = rng.range(1, 4) as u8;
     let cw = usize::from(char_w);
     let tw = usize::from(type_w);
-    let n_tags = rng.range(0, 3) as u32;
+    let n_tags = if rng.chance(1, 12) { rng.range(4, 6) as u32 } else { rng.range(0, 3) as u32 };
     // character map: type letters, the core alphabet, some extras, tag characters
     let mut char_map: Vec<char> = vec!['K', 'T', 'H', 'R', 'D', 'O'];
-    for &c in gen::CORE.iter().chain(gen::EXTRA.iter()) {
+    for &c in gen::CORE.iter().chain(gen::EXTRA.iter()).chain(gen::NORMALISED.iter()) {
         if c != '\0' && !char_map.contains(&c) {
             char_map.push(c);
         }
@@ -437,7 +437,8 @@ pub fn gen_spec(rng: &mut Rng) -> KySpec {
         None
     };
     let n_dicts = rng.range(0, 8) as u8;
-    let dict_n = rng.range(1, 5) as u8;
+    // usually KyTea's small bucket counts; sometimes far more buckets than any word has characters
+    let dict_n = if rng.chance(1, 8) { rng.range(6, 40) as u8 } else { rng.range(1, 5) as u8 };
     let dict_vec = gen_i16s(rng, 3 * usize::from(dict_n) * usize::from(n_dicts));
     let lookup = KyLookup {
         char_dict: Some(char_dict),
@@ -464,7 +465,11 @@ pub fn gen_spec(rng: &mut Rng) -> KySpec {
     let dict = if n_dicts > 0 && rng.chance(5, 6) {
         let mut items = vec![];
         for _ in 0..rng.range(1, 8) {
-            let n = if rng.chance(1, 10) { rng.range(7, 20) } else { rng.range(1, 6) };
+            let n = match rng.below(20) {
+                0 | 1 => rng.range(7, 20),
+                2 => rng.range(21, 45),
+                _ => rng.range(1, 6),
+            };
             let k = gen::gen_pattern(rng, n);
             if items.iter().any(|(x, _): &(String, KyTagEntry)| *x == k) {
                 continue;
